@@ -1,7 +1,7 @@
 """C05 — delayed messages are never delivered early and never forgotten (in-memory broker)."""
 from ..common import Ctx, Failure, Result
 from .. import memrun
-from . import _mem
+from . import _mem, _redis
 
 S = memrun.S
 RULE = ("histories over one or two queues with a normal, a topic-filtered normal and a delayed-category consumer: enqueues and "
@@ -139,6 +139,7 @@ def run(ctx: Ctx) -> Result:
             if kind not in seen:
                 seen.add(kind)
                 res.failures.append(Failure(kind, what, {"history": _mem.strip(h), "where": where}, None))
+    _redis.run_seq(ctx, res, "c05r", {"C05"}, "delay", 150, 3000, rng)
     return res
 
 
